@@ -357,7 +357,11 @@ impl SeqCtx {
                 b.ctl.fault_on.store(true, std::sync::atomic::Ordering::SeqCst);
             }
         }
-        Ok(SeqCtx { cfg: cfg.clone(), built, exec, world, universe, out: RunOut::default(), shape, trace_on })
+        let mut out = RunOut::default();
+        if cfg.specs.iter().any(|s| s.has_dir_over_file()) {
+            out.count("probe.overlay.directory_shadows_lower_file");
+        }
+        Ok(SeqCtx { cfg: cfg.clone(), built, exec, world, universe, out, shape, trace_on })
     }
 
     pub fn violate(&mut self, step: usize, key: String, detail: String) {
